@@ -489,7 +489,7 @@ MUTATIONS = ["lfcr", "te_empty", "value_trailing_ctl", "chunk_size_lf", "nonutf8
              "no_colon", "chunk_plus", "chunk_0x", "chunk_space", "chunk_empty", "chunk_big", "chunk_ext_lf", "chunk_ext_cr", "chunk_no_crlf",
              "bad_trailer", "no_host", "dup_host", "empty_host", "byte_flip", "byte_insert", "byte_delete", "truncate",
              "bad_version", "bad_method", "two_spaces", "kelvin_te", "long_line", "many_headers", "abs_bad_url", "connect_bad",
-             "start_line_ws", "te_case"]
+             "start_line_ws", "te_case", "bad_status"]
 
 
 def mutate(rng, data, kind=None):
@@ -567,6 +567,16 @@ def mutate(rng, data, kind=None):
                                                                       b"\x0bchunked", b"chunked;q=1", b", chunked", b"chunked,",
                                                                       b"Chunked, chunked", b"chunked, CHUNKED", b"cHuNkEd, gzip, chunked", b"CHUNKED,chunked",
                                                                       b"chunked, Chunked ", b"gzip, Chunked", b"CHUNKED"]) + b"\r\n"), kind
+    if kind == "bad_status":
+        # the status code of a response is exactly three ASCII digits
+        i = d.find(b"\r\n")
+        first = d[:i] if i >= 0 else d
+        if not first.startswith(b"HTTP/"):
+            return b"HTTP/1.1 " + rng.choice([b"2x0", b"+20", b"20", b"2000", b"\xd9\xa2\xd9\xa0\xd9\xa0", b"\xc2\xb200", b"-00", b"0x1", b"2 0", b"1e2", b"200.", b"\xef\xbc\x92\xef\xbc\x90\xef\xbc\x90"]) + b" OK\r\nContent-Length: 0\r\n\r\n", kind
+        parts = first.split(b" ", 2)
+        if len(parts) < 2: return d, kind
+        parts[1] = rng.choice([b"2x0", b"+20", b"20", b"2000", b"\xd9\xa2\xd9\xa0\xd9\xa0", b"\xc2\xb200", b"-00", b"0x1", b"1e2", b"200.", b"\xef\xbc\x92\xef\xbc\x90\xef\xbc\x90", b"_00", b"2_0"])
+        return b" ".join(parts) + (d[i:] if i >= 0 else b""), kind
     if kind == "te_case":
         # codings are case-insensitive: a list that names chunked twice (in any spelling), or not last, with a body
         # that is valid chunked data and a pipelined request behind it
